@@ -321,7 +321,7 @@ def groups(tier):
     kinds = ['l', 'g', 'ms:lg', 'ms1:l', 'msP:g'] if q else ['l', 'g', 's', 'L', 'ms:lg', 'ms1:l', 'ms1:g', 'msP:g', 'msP:l']
     return {
         'copy': (g_copy(kinds), dict(max_paths=400000)),
-        'copy_like': (g_copy_like(['l', 'ms:lg'] if q else ['l', 'g', 'ms:lg', 'ms:ls'],
+        'copy_like': (g_copy_like(['l', 'g', 'ms:lg'] if q else ['l', 'g', 'ms:lg', 'ms:ls'],
                                   ['l', 'g', 'ms:lg', 'ms1:l', 'ms1:g', 's', 'msP:g', 'ms:ls'] if not q else ['l', 'g', 'ms:lg', 'ms1:l', 's', 'msP:g', 'ms:ls']),
                       dict(max_paths=400000)),
         'proxy-and-links': (g_sharing(), dict(max_paths=400000)),
